@@ -176,6 +176,24 @@ where
     }
 }
 
+#[cfg(idsp_verif)]
+impl<T: Copy, const N: usize> Cic<T, N> {
+    /// Verification hook: construct from raw state.
+    pub fn verif_from_raw(rate: u32, index: u32, zoh: T, combs: [T; N], integrators: [T; N]) -> Self {
+        Self {
+            rate,
+            index,
+            zoh,
+            combs,
+            integrators,
+        }
+    }
+    /// Verification hook: raw state `(rate, index, zoh, combs, integrators)`.
+    pub fn verif_raw(&self) -> (u32, u32, T, [T; N], [T; N]) {
+        (self.rate, self.index, self.zoh, self.combs, self.integrators)
+    }
+}
+
 #[cfg(test)]
 mod test {
     use core::cmp::Ordering;
